@@ -161,6 +161,10 @@ func (p c15) Run(c *core.Ctx) {
 		return
 	}
 	ns := 1 + c.Rng.Intn(5)
+	many := c.Index%6 == 1
+	if many {
+		ns = 13 + c.Rng.Intn(20) // more sources than a small-slice sort special-cases
+	}
 	var srcs []*c15Source
 	usedOrd := map[string]bool{}
 	haveFile := false
@@ -183,6 +187,15 @@ func (p c15) Run(c *core.Ctx) {
 			s.kind = "raw"
 		}
 		s.tree = genTree(c, 0, s.kind == "args")
+		if many && s.kind != "file" && c.Rng.Intn(4) > 0 {
+			s.kind = "raw" // mostly plain sources, applied in the order they were added
+			s.tree = genTree(c, 3, false) // flat: scalars and lists only
+		}
+		if s.kind == "file" && c.Rng.Intn(4) == 0 {
+			// a very long single-line value somewhere in the middle of the file
+			s.tree["longline"] = strings.Repeat("x", 64*1024+c.Rng.Intn(9000))
+			s.tree["zafter"] = "after-the-long-line"
+		}
 		switch s.kind {
 		case "raw":
 			b, _ := yaml.Marshal(s.tree)
@@ -266,7 +279,7 @@ func (p c15) Run(c *core.Ctx) {
 			lds = append(lds, gsrc.ld)
 			labels = append(labels, gsrc.label)
 		}
-		if c.Rng.Intn(4) == 0 {
+		if c.Rng.Intn(4) == 0 && !(many && i > 0) { // (with many sources the list is replaced at most at the very beginning)
 			opts = append(opts, app.SetConfigLoader(lds...))
 			effective = append([]*c15Source(nil), group...)
 			seqDesc = append(seqDesc, "SetConfigLoader("+strings.Join(labels, ",")+")")
